@@ -56,12 +56,14 @@ type Plan struct {
 	Ops        []Op   `json:"ops"`
 }
 
+//go:norace
 func (p *Plan) Clone() *Plan {
 	c := *p
 	c.Ops = append([]Op(nil), p.Ops...)
 	return &c
 }
 
+//go:norace
 func Generate(r *rand.Rand, profile string, concurrent bool, avoid map[string]bool) *Plan {
 	p := &Plan{Profile: profile, Concurrent: concurrent}
 	switch r.IntN(4) {
@@ -76,6 +78,9 @@ func Generate(r *rand.Rand, profile string, concurrent bool, avoid map[string]bo
 		p.Strategy = r.IntN(4)
 	}
 	p.EarlyProbe = !avoid["early_probe"] || r.IntN(4) == 0
+	if avoid["no_early_probe"] {
+		p.EarlyProbe = false
+	}
 	n := 4 + r.IntN(20)
 	for i := 0; i < n; i++ {
 		o := Op{}
@@ -134,20 +139,28 @@ type fakeCS struct {
 //go:norace
 func (f *fakeCS) SendMsg(m interface{}) error {
 	f.s.k.Yield("fake:SendMsg")
-	f.s.reached = append(f.s.reached, rec{kind: "send", task: curTask(f.s), msg: m, seq: len(f.s.reached)})
+	f.s.reached = kern.Push(f.s.reached, rec{kind: "send", task: curTask(f.s), msg: m, seq: len(f.s.reached)})
 	return nil
 }
 
 //go:norace
 func (f *fakeCS) RecvMsg(m interface{}) error {
 	f.s.k.Yield("fake:RecvMsg")
-	f.s.reached = append(f.s.reached, rec{kind: "recv", task: curTask(f.s), msg: m, seq: len(f.s.reached)})
+	f.s.reached = kern.Push(f.s.reached, rec{kind: "recv", task: curTask(f.s), msg: m, seq: len(f.s.reached)})
 	return nil
 }
+
+//go:norace
 func (f *fakeCS) Header() (metadata.MD, error) { f.s.probed++; return metadata.MD{"h": {"1"}}, nil }
-func (f *fakeCS) Trailer() metadata.MD         { f.s.probed++; return metadata.MD{"t": {"1"}} }
-func (f *fakeCS) CloseSend() error             { f.s.probed++; return nil }
-func (f *fakeCS) Context() context.Context     { f.s.probed++; return f.ctx }
+
+//go:norace
+func (f *fakeCS) Trailer() metadata.MD { f.s.probed++; return metadata.MD{"t": {"1"}} }
+
+//go:norace
+func (f *fakeCS) CloseSend() error { f.s.probed++; return nil }
+
+//go:norace
+func (f *fakeCS) Context() context.Context { f.s.probed++; return f.ctx }
 
 type taskTag struct{ id int }
 
@@ -166,39 +179,41 @@ type sim struct {
 	k    *kern.Kernel
 	res  *simkit.Result
 
-	cs        grpc.ClientStream
-	ctx       context.Context
-	cancel    context.CancelFunc
-	ctxEnded  bool
-	created   int // successful creations
-	attempts  int
-	firstMsg  interface{}
-	createErr []error
-	unblock   kern.Waiter
-	blocked   bool
-	reached   []rec
-	probed    int
-	issued    []rec // sends/recvs issued by the harness after creation was known
-	pending   map[int]*pendingOp
-	nextOp    int
-	opIdx     int
-	stop      bool
-	sendSeq   int
-	keyCtx    struct{}
+	cs              grpc.ClientStream
+	ctx             context.Context
+	cancel          context.CancelFunc
+	ctxEnded        bool
+	created         int // successful creations
+	attempts        int
+	firstMsg        interface{}
+	createErr       []error
+	unblock         kern.Waiter
+	blocked         bool
+	reached         []rec
+	probed          int
+	issued          []rec // sends/recvs issued by the harness after creation was known
+	pending         map[int]*pendingOp
+	nextOp          int
+	opIdx           int
+	stop            bool
+	sendSeq         int
+	keyCtx          struct{}
+	nBlocks, nFails int
 }
 
 type pendingOp struct {
-	id       int
-	kind     string
-	task     int
-	msg      interface{}
-	err      error
-	returned bool
-	t        *kern.Task
-	panicked bool
+	id                 int
+	kind               string
+	task               int
+	msg                interface{}
+	err                error
+	returned           bool
+	t                  *kern.Task
+	panicked           bool
 	issuedBeforeCreate bool
 }
 
+//go:norace
 func (s *sim) vio(prop, rule, facts, msg string) {
 	sig := prop + "|" + rule
 	if facts != "" {
@@ -218,22 +233,23 @@ func (s *sim) streamer(ctx context.Context, desc *grpc.StreamDesc, cc *grpc.Clie
 	n := s.attempts
 	if ctx.Value(ctxKey("caller")) != "value" {
 		s.k.Logf("streamer: caller context value lost")
-		s.createErr = append(s.createErr, errors.New("ctx-lost"))
+		s.createErr = kern.Push(s.createErr, errors.New("ctx-lost"))
 	}
 	if s.plan.BlockFirst && n == 1 {
 		s.blocked = true
-		s.res.Count("fault:stream_creation_blocks", 1)
+		s.nBlocks++
 		s.k.Wait(&s.unblock)
 		s.blocked = false
 	}
 	if n <= s.plan.Fails {
-		s.res.Count("fault:stream_creation_fails", 1)
+		s.nFails++
 		return nil, fmt.Errorf("creation %d failed", n)
 	}
 	s.created++
 	return &fakeCS{s: s, ctx: ctx}, nil
 }
 
+//go:norace
 func Run(t *testing.T, plan *Plan, src *simkit.Source, logOn bool) *simkit.Result {
 	res := &simkit.Result{}
 	h := simkit.Bubble(t, func() {
@@ -248,6 +264,8 @@ func Run(t *testing.T, plan *Plan, src *simkit.Source, logOn bool) *simkit.Resul
 }
 
 // op spawns one stream method call as a task (panics recorded).
+//
+//go:norace
 func (s *sim) op(kind string, task int, msg interface{}, fn func() error) *pendingOp {
 	po := &pendingOp{id: s.nextOp, kind: kind, task: task, msg: msg, issuedBeforeCreate: s.created == 0}
 	s.nextOp++
@@ -269,6 +287,7 @@ func (s *sim) op(kind string, task int, msg interface{}, fn func() error) *pendi
 	return po
 }
 
+//go:norace
 func (s *sim) settle(o Op) {
 	if s.plan.Concurrent {
 		s.k.RunSteps(o.N)
@@ -281,6 +300,7 @@ func (s *sim) settle(o Op) {
 	}
 }
 
+//go:norace
 func (s *sim) run(src *simkit.Source, logOn bool) {
 	k := kern.New(src)
 	k.LogOn = logOn
@@ -325,6 +345,7 @@ func (s *sim) run(src *simkit.Source, logOn bool) {
 
 type msg struct{ N int }
 
+//go:norace
 func (s *sim) exec(o Op) {
 	switch o.K {
 	case OpSend:
@@ -394,6 +415,8 @@ func (s *sim) exec(o Op) {
 }
 
 // unary checks the transparency of GCPUnaryClientInterceptor.
+//
+//go:norace
 func (s *sim) unary(variant int) {
 	type key struct{}
 	ctx := context.WithValue(context.Background(), key{}, 42)
@@ -447,6 +470,8 @@ func (s *sim) unary(variant int) {
 }
 
 // check evaluates the history oracles.
+//
+//go:norace
 func (s *sim) check() {
 	if s.stop {
 		return
@@ -494,6 +519,8 @@ func (s *sim) check() {
 }
 
 // quiescent checks: at quiescence of a serial run.
+//
+//go:norace
 func (s *sim) quiescent(final bool) {
 	if s.stop {
 		return
@@ -536,6 +563,8 @@ func (s *sim) quiescent(final bool) {
 
 // order: after creation every task's sends/receives reach the underlying
 // stream unchanged and in that task's order.
+//
+//go:norace
 func (s *sim) order() {
 	if s.stop {
 		return
@@ -587,6 +616,7 @@ func (s *sim) order() {
 	}
 }
 
+//go:norace
 func (s *sim) heal() {
 	// let a blocked creation proceed, run everything, then judge
 	if s.blocked {
@@ -611,6 +641,7 @@ func (s *sim) heal() {
 	s.res.Count("probe:heal_reached", 1)
 }
 
+//go:norace
 func (s *sim) finish() {
 	k := s.k
 	if s.cancel != nil {
@@ -626,9 +657,12 @@ func (s *sim) finish() {
 	s.res.Switches, s.res.SwitchInOp = k.Switches, k.SwitchInOp
 	s.res.Log = k.Log
 	s.res.Count("ops", len(s.plan.Ops))
+	s.res.Count("fault:stream_creation_blocks", s.nBlocks)
+	s.res.Count("fault:stream_creation_fails", s.nFails)
 	s.res.States = append(s.res.States, uint64(s.created)<<8|uint64(s.attempts)<<4|uint64(len(s.reached)))
 }
 
+//go:norace
 func sortInts(a []int) {
 	for i := 1; i < len(a); i++ {
 		for j := i; j > 0 && a[j] < a[j-1]; j-- {
@@ -641,30 +675,45 @@ func sortInts(a []int) {
 
 type Engine struct{}
 
+//go:norace
 func (Engine) Name() string { return "streamsim" }
+
+//go:norace
 func (Engine) Generate(r *rand.Rand, profile string, concurrent bool, avoid map[string]bool) simkit.Plan {
 	return Generate(r, profile, concurrent, avoid)
 }
+
+//go:norace
 func (Engine) Decode(b []byte) (simkit.Plan, error) {
 	p := &Plan{}
 	return p, json.Unmarshal(b, p)
 }
+
+//go:norace
 func (Engine) Strategy(p simkit.Plan, r *rand.Rand) simkit.Strategy {
 	pl := p.(*Plan)
 	if !pl.Concurrent || pl.Strategy == 0 {
-		return &simkit.RandomWalk{R: r, Stick: 0.6, Mix: 0.5}
+		return &simkit.RandomWalk{R: simkit.NewSM64(r.Uint64()), Stick: 0.6, Mix: 0.5}
 	}
-	return simkit.NewPCT(r, pl.Strategy, 30+len(pl.Ops)*8, 0.5)
+	return simkit.NewPCT(simkit.NewSM64(r.Uint64()), pl.Strategy, 30+len(pl.Ops)*8, 0.5)
 }
+
+//go:norace
 func (Engine) Run(t *testing.T, p simkit.Plan, src *simkit.Source, log bool) *simkit.Result {
 	return Run(t, p.(*Plan), src, log)
 }
+
+//go:norace
 func (Engine) NOps(p simkit.Plan) int { return len(p.(*Plan).Ops) }
+
+//go:norace
 func (Engine) Remove(p simkit.Plan, i, j int) simkit.Plan {
 	c := p.(*Plan).Clone()
 	c.Ops = append(c.Ops[:i], c.Ops[j:]...)
 	return c
 }
+
+//go:norace
 func (Engine) Simplify(p simkit.Plan) []simkit.Plan {
 	pl := p.(*Plan)
 	var out []simkit.Plan
@@ -689,6 +738,8 @@ func (Engine) Simplify(p simkit.Plan) []simkit.Plan {
 	}
 	return out
 }
+
+//go:norace
 func (Engine) Relevant(res *simkit.Result, prop string) bool {
 	return res.Counters["op:send"]+res.Counters["op:recv"]+res.Counters["op:probe"]+res.Counters["op:unary"] > 0
 }
